@@ -695,6 +695,12 @@ class TaskDispatcher(object):
                         self.orphaned_response_retention_ms
                     )
                     self.orphaned_responses[correlation_id] = (message, timeout_id)
+                    """
+                    Make sure that handle_orphaned_responses is scheduled, as
+                    the request might be registered by a redelivered Task
+                    message that has already been dispatched.
+                    """
+                    self.schedule_orphaned_response_handler()
             else:
                 """
                 If the uptime is more than the retention period for orphaned
